@@ -132,6 +132,10 @@ def run(tier):
     cfgs = configs(tier)
     budget = 8000 if tier == "quick" else 300000
     with vlib.Scratch() as scratch:
+        # design level: the user-facing property over the specification's own variables, before any implementation is involved
+        dl_ok, dl_gen, dl_dist, dl_out = vlib.run_design_level("MC_HandoverDesign.tla", "MC_HandoverDesign.cfg", scratch)
+        if not dl_ok:
+            V.machinery_error("design-level check of the specification failed (Handover.tla: exactly once, in order): " + dl_out[-500:])
         mods = []
         for i, c in enumerate(cfgs):
             c["name"] = f"E15_{i:03d}"
@@ -180,7 +184,7 @@ def run(tier):
                                                      "source_py": source(did, next(c for c in cfgs if c["name"] == did))})
     trunc = [fam[k] for k, v in stats.items() if v[0] >= budget]
     cov = {"states": dist, "transitions": gen, "traces_validated_against_impl": len(designs), "configurations": len(cfgs),
-           "evaluations": gen, "distinct_nontrivial": sum(1 for v in stats.values() if v[1] >= 2),
+           "evaluations": gen, "design_level": {"what": "Handover.tla: exactly once, in order", "states": dl_dist, "transitions": dl_gen}, "distinct_nontrivial": sum(1 for v in stats.values() if v[1] >= 2),
            "samples": [c["fam"] for c in cfgs[:: max(1, len(cfgs) // 4)][:4]], "truncated_configurations": trunc,
            "budget_transitions": budget, "exhaustive": not trunc,
            "rule": "wrapper per configuration (Mailbox / SyncFlag, payload width, tx/rx delay, one or two contexts, one clock or two "
